@@ -142,13 +142,22 @@ def extra_shape(ctx):
     from vprops import report_violation
     n = 0
     classes = {}
+    # the closure files reach every state along each of its incoming transitions: a dump text is checked once
+    # (leaf values erased: the well-formedness oracle does not look at them)
+    memo = {}
+    leaf_val = re.compile(r',-?\d+\)')
     for f, cmds, out in _outs(ctx):
         for i, c in enumerate(cmds):
             if not c.startswith("DUMP ") or i >= len(out):
                 continue
             n += 1
-            errs, known = vshape.well_formed(out[i])
-            for m in re.findall(r'(?<![0-9a-f])(4|16|48|256)\(', out[i]):
+            mk = leaf_val.sub(',)', out[i])
+            r = memo.get(mk)
+            if r is None:
+                errs, known = vshape.well_formed(out[i])
+                r = memo[mk] = (list(errs), known, re.findall(r'(?<![0-9a-f])(4|16|48|256)\(', out[i]))
+            errs, known = list(r[0]), r[1]
+            for m in r[2]:
                 classes[m] = classes.get(m, 0) + 1
             if known:
                 for k in ctx.known:
